@@ -54,7 +54,7 @@ func runInventoryCmd(args []string) {
 	repo := fs.String("repo", "/repo", "repository root")
 	out := fs.String("out", "Sites.v", "output .v file")
 	fs.Parse(args)
-	var panicSites, mapRanges, clockSites []string
+	var panicSites, mapRanges, clockSites, stateSites []string
 	// first pass: functions whose first result is a map, struct fields of map type
 	mapFuncs := map[string]bool{}
 	mapFields := map[string]bool{}
@@ -104,6 +104,46 @@ func runInventoryCmd(args []string) {
 				os.Exit(2)
 			}
 			rel := d + "/" + base
+			// process-local state: every field of every struct type and every package-level variable.  Consensus state
+			// has to live in the store (it is what a rejected or simulated transaction rolls back and what other nodes
+			// see); anything a keeper, decorator or package can remember outside it must be accounted for.
+			for _, decl := range af.Decls {
+				gd, ok := decl.(*ast.GenDecl)
+				if !ok {
+					continue
+				}
+				for _, sp := range gd.Specs {
+					switch x := sp.(type) {
+					case *ast.TypeSpec:
+						if st, ok := x.Type.(*ast.StructType); ok {
+							for _, fl := range st.Fields.List {
+								names := []string{"(embedded)"}
+								if len(fl.Names) > 0 {
+									names = nil
+									for _, n := range fl.Names {
+										names = append(names, n.Name)
+									}
+								}
+								for _, n := range names {
+									stateSites = append(stateSites, fmt.Sprintf("%s|%s|field|%s %s", rel, x.Name.Name, n, exprText(fset, fl.Type)))
+								}
+							}
+						}
+					case *ast.ValueSpec:
+						if gd.Tok == token.VAR {
+							for i, n := range x.Names {
+								txt := ""
+								if x.Type != nil {
+									txt = exprText(fset, x.Type)
+								} else if i < len(x.Values) {
+									txt = "= " + exprText(fset, x.Values[i])
+								}
+								stateSites = append(stateSites, fmt.Sprintf("%s|-|var|%s %s", rel, n.Name, txt))
+							}
+						}
+					}
+				}
+			}
 			for _, decl := range af.Decls {
 				fd, ok := decl.(*ast.FuncDecl)
 				if !ok || fd.Body == nil {
@@ -256,9 +296,10 @@ func runInventoryCmd(args []string) {
 	emit("panic_sites", panicSites)
 	emit("map_ranges", mapRanges)
 	emit("clock_sites", clockSites)
+	emit("state_sites", stateSites)
 	if err := os.WriteFile(*out, []byte(sb.String()), 0o644); err != nil {
 		fmt.Println(err)
 		os.Exit(2)
 	}
-	fmt.Printf("INVENTORY panic_sites=%d map_ranges=%d clock_sites=%d\n", len(dedup(panicSites)), len(dedup(mapRanges)), len(dedup(clockSites)))
+	fmt.Printf("INVENTORY panic_sites=%d map_ranges=%d clock_sites=%d state_sites=%d\n", len(dedup(panicSites)), len(dedup(mapRanges)), len(dedup(clockSites)), len(dedup(stateSites)))
 }
